@@ -81,3 +81,14 @@ Example C09_example :
   decide_hit q e ((946684800 + 8000) * second) = DServe /\
   decide_hit q e ((946684800 + 8600) * second) = DRevalidate false.
 Proof. repeat split; vm_compute; reflexivity. Qed.
+
+(* ---------- tie to the source: the part of the model this property rests on is what /verif/translate derives from
+   /repo's Go source on this run (Generated/*.v are rewritten before every build; see DESIGN.md section 9) ---------- *)
+From HC.Generated Require Import SrcHit SrcStatus.
+From HC.Proofs Require Import TieHit TieStatus.
+Theorem C09_source_decision : forall q e now, src_decide_hit q e now = decide_hit q e now.
+Proof. exact tie_decide_hit. Qed.
+Theorem C09_source_heuristic_statuses : forall code, src_is_heuristically_cacheable code = is_heuristically_cacheable code.
+Proof. exact tie_is_heuristically_cacheable. Qed.
+Print Assumptions C09_source_decision.
+Print Assumptions C09_source_heuristic_statuses.
